@@ -29,6 +29,11 @@ type specEnv struct {
 
 func (r *run) newEnv(fr *frame, st *State) *specEnv {
 	e := &specEnv{r: r, fr: fr, st: st, old: r.entry, extra: map[string]SVal{}, bound: map[string]SVal{}}
+	if fr != nil {
+		for k, v := range fr.lets {
+			e.extra[k] = v
+		}
+	}
 	if fr != nil && fr.fn != nil {
 		if fr.fn.Pkg != nil {
 			e.pkg = fr.fn.Pkg.Pkg
@@ -535,6 +540,12 @@ func (e *specEnv) call(x *SExpr) SVal {
 		c, a, b := arg(0), arg(1), arg(2)
 		a, b = e.coerceNil(a, b)
 		return SVal{Term: fmt.Sprintf("(ite %s %s %s)", c.Term, a.Term, b.Term), Sort: a.Sort, Type: a.Type}
+	case "validItem":
+		a := arg(0)
+		return SVal{Term: fmt.Sprintf("(validItem %s)", a.Term), Sort: "Bool"}
+	case "validColl":
+		a := arg(0)
+		return SVal{Term: fmt.Sprintf("(validColl %s)", a.Term), Sort: "Bool"}
 	case "haskey":
 		m, k := arg(0), arg(1)
 		dom, _, _, _ := e.r.mapHeaps(m.Type)
